@@ -18,6 +18,7 @@ import json
 import random
 import shutil
 import threading
+import time
 
 from . import core
 
@@ -40,7 +41,7 @@ CONSTS = {
         dict(NSyms=4, MaxLen=8, MaxUses=2, MaxGuards=3, WithODE="TRUE", MaxFeat=12, MaxAdm=5, MinEmit=6, MaxRmSet=1, SampleMod=6, Thin=64, FullDepth=1),
     ),
 }
-INVARIANTS = ["T0_Machine", "T1_FullExpr", "T2_DepSound", "T3_DepBounds", "T4_Remove", "T5_Reassign", "T6_Subs", "T7_Used", "EmitCase"]
+INVARIANTS = ["T0_Machine", "T1_FullExpr", "T2_DepSound", "T3_DepBounds", "T4_Remove", "T4b_FixedRemove", "T5_Reassign", "T6_Subs", "T7_Used", "EmitCase"]
 
 
 def _cfg(path, consts, seed):
@@ -73,7 +74,9 @@ def _tlc_cases(tier: str, seed: int, v: core.Verdict):
         ("sim", lambda: core.run_tlc(SPEC / "Statements.tla", _cfg(d / "sim.cfg", sim_c, seed), workers=8, timeout=to, coverage=False)),
     ]
     ths = [threading.Thread(target=run, args=j) for j in jobs]
-    [t.start() for t in ths]
+    for t in ths:
+        t.start()
+        time.sleep(0.4)  # core.scratch names the TLC metadir by pid + millisecond: never start two runs in the same one
     [t.join() for t in ths]
     shutil.rmtree(d, ignore_errors=True)
     for tag, _ in jobs:
@@ -481,7 +484,11 @@ def _replay_chunk(arg):
     return out
 
 
+MAX_REPORTED = 150
+
+
 def main(tier: str, seed: int) -> int:
+    suppressed = 0
     v = core.Verdict("C10", tier, seed)
     v.assumptions = [
         "programs: lhs = const + sum of <= 2 atoms, optionally Piecewise on the single guard x1 > 0 (else-branch: old value or 1), "
@@ -509,7 +516,11 @@ def main(tier: str, seed: int) -> int:
             raise core.MachineryError(r[1])
         viol, stats, drift = r
         for rec, what in viol:
-            v.violation(rec, what)
+            # replay files carry the whole TLC case: write at most MAX_REPORTED of them, count the rest
+            if len(v.violations) < MAX_REPORTED or core.match_known(v.prop, rec, v.known) is not None:
+                v.violation(rec, what)
+            else:
+                suppressed += 1
         for k in tot:
             tot[k] += stats[k]
         ndrift += len(drift)
@@ -536,6 +547,9 @@ def main(tier: str, seed: int) -> int:
         samples=[{"program": _text(c["prog"]), "values": {s["s"]: s["val"] for s in c["sym"]}} for c in work[:3]],
         exhaustive=False,
     )
+    if suppressed:
+        v.notes.append(f"{suppressed} further violations not written as replay files (cap {MAX_REPORTED})")
+        print(f"  ... and {suppressed} further violations beyond the first {MAX_REPORTED}")
     return v.finish(min_traces=500)
 
 
